@@ -116,7 +116,16 @@ func c20Font(c *explore.Ctx) (*sfnt.Font, []string, string) {
 		f.InstallCMap(cm12)
 	}
 	f.Gsub = nil
-	switch c.Choose(11, "gsub") {
+	switch c.Choose(13, "gsub") {
+	case 11:
+		// one glyph is an alternate of two covered glyphs (a small capital for 'A' and for 'a'): the covered
+		// glyph with the smaller id gives the name
+		f.Gsub = &gtab.Info{LookupList: gtab.LookupList{gen.MakeLookup(3, gen.Flags[0], []gtab.Subtable{&gtab.Gsub3_1{Cov: coverage.Table{1: 0, 2: 1}, Alternates: [][]glyph.ID{{3}, {3, 4}}}})}}
+		desc += ", GSUB3 1->[3] 2->[3 4]"
+	case 12:
+		// an alternate that is itself covered, and shared
+		f.Gsub = &gtab.Info{LookupList: gtab.LookupList{gen.MakeLookup(3, gen.Flags[0], []gtab.Subtable{&gtab.Gsub3_1{Cov: coverage.Table{1: 0, 2: 1, 3: 2}, Alternates: [][]glyph.ID{{2, 4}, {4}, {4}}}})}}
+		desc += ", GSUB3 1->[2 4] 2->[4] 3->[4]"
 	case 1:
 		f.Gsub = &gtab.Info{LookupList: gtab.LookupList{gen.MakeLookup(1, gen.Flags[0], []gtab.Subtable{&gtab.Gsub1_1{Cov: coverage.Set{1: true, 2: true}, Delta: 2}})}}
 		desc += ", GSUB1.1 {1,2}+2"
@@ -201,7 +210,7 @@ func c20Check(c *explore.Ctx, sig string, orig, got []string, n int, desc string
 
 func c20Names(r *run.Run) {
 	r.Explore(explore.Config{Name: "C20.names", Bound: c20Bound(r), Deadline: r.PartDeadline(0.95)},
-		"5-glyph fonts: 5 outline/name-storage kinds (CFF, CID, glyf with no / too short / full names list) x all name patterns over {empty, A, dup, .notdef, 'a b', f_i, B} per glyph x all subsets of 6 cmap entries (incl. a ligature character, a PUA and an astral code, two codes on one glyph) x 11 GSUB variants (1.1, 1.1 with a negative delta, a ligature set with a not yet nameable entry before a nameable one, 1.2 with two sources for one target, 3.1, 4.1, 4.1 with one output of two rules, two ligature lookups with equal components and different outputs, two single substitutions of one glyph, a ligature of a ligature): complete, distinct, .notdef first, unique names kept, inference from cmap / substitutions, retrievable after EnsureGlyphNames, identical on repeated calls",
+		"5-glyph fonts: 5 outline/name-storage kinds (CFF, CID, glyf with no / too short / full names list) x all name patterns over {empty, A, dup, .notdef, 'a b', f_i, B} per glyph x all subsets of 6 cmap entries (incl. a ligature character, a PUA and an astral code, two codes on one glyph) x 13 GSUB variants (1.1, 1.1 with a negative delta, 3.1 with an alternate shared by two covered glyphs, 3.1 with a covered alternate, a ligature set with a not yet nameable entry before a nameable one, 1.2 with two sources for one target, 3.1, 4.1, 4.1 with one output of two rules, two ligature lookups with equal components and different outputs, two single substitutions of one glyph, a ligature of a ligature): complete, distinct, .notdef first, unique names kept, inference from cmap / substitutions, retrievable after EnsureGlyphNames, identical on repeated calls",
 		func(c *explore.Ctx) {
 			f, orig, desc := c20Font(c)
 			c.Sample(func() any { return map[string]any{"names": orig, "font": desc} })
